@@ -278,3 +278,111 @@ func ZZ_C05_network() {
 	}
 	_ = fmt.Sprint
 }
+
+func init() { zz.Register("ZZ_C07_networkReshare", ZZ_C07_networkReshare) }
+
+// ZZ_C07_networkReshare (also C02, C03): the same small network of real handlers goes through a RESHARING while
+// it produces beacons: a new group (same distributed key, new polynomial and shares, possibly another threshold,
+// possibly one member leaving) takes over at a transition round. Each node registers the transition
+// (TransitionNewGroup) when its key generation completes -- one node possibly a round later than the others. The chain continues across the transition with no gap, no fork and
+// no halted round; afterwards every remaining node runs the new group, the chain info is unchanged, and all
+// stores are identical and verify under the unchanged public key.
+func ZZ_C07_networkReshare() {
+	n, t := zz.Param("n", 3), zz.Param("t", 2)
+	w := zzNewWorldNet(n, t, zzGenesis-2)
+	nw := w.nw
+	period := nw.group.Period
+	for _, h := range w.hs {
+		if err := h.Start(context.Background()); err != nil {
+			panic(err)
+		}
+	}
+	zz.Quiesce()
+	w.advance(2 * time.Second) // round 1
+	w.advance(period)          // round 2
+	// the new epoch
+	tRound := uint64(5)
+	tNew := t + zz.Choose("new_threshold_delta", n-t+1) // t .. n
+	leaver := -1
+	members := n
+	if zz.Bool("last_member_leaves") && n-1 >= t {
+		leaver = n - 1
+		members = n - 1
+		if tNew > members {
+			tNew = members
+		}
+	}
+	newEp := zzfake.Deal(nw.sch, n, tNew, "group-secret", "epoch2")
+	newGroup := zzfake.Group(nw.sch, nw.pairs[:members], tNew, period, zzGenesis, newEp, "")
+	newGroup.GenesisSeed = nw.group.GenesisSeed
+	newGroup.TransitionTime = common.TimeOfRound(period, zzGenesis, tRound)
+	infoBefore := w.hs[0].crypto.GetInfo().Hash()
+	lateNode := -1
+	if zz.Bool("one_node_completes_its_dkg_late") {
+		lateNode = zz.Choose("late_node", members)
+	}
+	register := func(i int) {
+		if i != leaver {
+			w.hs[i].TransitionNewGroup(context.Background(), newEp.Share(nw.sch, i), newGroup)
+		}
+	}
+	for i := 0; i < n; i++ {
+		if i != lateNode {
+			register(i)
+		}
+	}
+	w.advance(period) // round 3
+	if lateNode >= 0 {
+		// late, but before the last round of the old group is produced. (A node that registers only AFTER that
+		// round is stored keeps the old share until the next beacon is stored; if the new threshold needs that very
+		// node the network cannot produce it -- a schedule that requires one node's key generation to end more
+		// than ten rounds after the others', which is outside this scenario.)
+		register(lateNode)
+	}
+	w.advance(period) // round 4 = the last round of the old group
+	if leaver >= 0 {
+		// the departing node stops at the transition
+		w.advance(period - time.Second)
+		w.isolate(leaver, true)
+		w.advance(time.Second)
+	} else {
+		w.advance(period) // round 5: first round of the new group
+	}
+	catchup := nw.group.CatchupPeriod
+	for r := 0; r < 2; r++ { // rounds 6, 7
+		for el := time.Duration(0); el < period; el += catchup {
+			w.advance(catchup)
+		}
+	}
+	cr := common.CurrentRound(w.clk.Now().Unix(), period, zzGenesis)
+	pub := nw.group.PublicKey.Key()
+	for i := 0; i < members; i++ {
+		if i == lateNode {
+			zz.Tag("late_dkg_completion")
+		}
+		zz.Assert("chain_continues_across_the_transition_without_a_halted_round", w.head(i) == cr)
+		zz.Assert("remaining_nodes_run_the_new_group", w.hs[i].crypto.GetGroup() == newGroup)
+		zz.Assert("chain_info_unchanged_by_the_resharing", bytes.Equal(w.hs[i].crypto.GetInfo().Hash(), infoBefore))
+	}
+	for r := uint64(1); r <= cr; r++ {
+		b0, err0 := w.hs[0].chain.Get(context.Background(), r)
+		zz.Assert("no_gap_across_the_transition", err0 == nil && b0 != nil)
+		if err0 != nil || b0 == nil {
+			continue
+		}
+		zz.Assert("beacons_across_the_transition_verify_under_the_unchanged_key", nw.sch.VerifyBeacon(b0, pub) == nil)
+		for i := 1; i < members; i++ {
+			bi, err := w.hs[i].chain.Get(context.Background(), r)
+			zz.Assert("no_gap_across_the_transition", err == nil && bi != nil)
+			if err == nil && bi != nil {
+				zz.Assert("no_fork_across_the_transition", bytes.Equal(bi.Signature, b0.Signature) && bytes.Equal(bi.PreviousSig, b0.PreviousSig))
+			}
+		}
+	}
+	for _, s := range w.sent {
+		zz.Assert("no_partial_before_its_round_time", common.TimeOfRound(period, zzGenesis, s.round) <= s.atUnix)
+	}
+	for _, h := range w.hs {
+		h.Stop(context.Background())
+	}
+}
